@@ -407,7 +407,8 @@ func (c *Client) send(dest net.Addr, msg *dhcpv6.Message) (<-chan *dhcpv6.Messag
 
 	ch := make(chan *dhcpv6.Message, c.bufferCap)
 	done := make(chan struct{})
-	c.pending[msg.TransactionID] = &pendingCh{done: done, ch: ch}
+	own := &pendingCh{done: done, ch: ch}
+	c.pending[msg.TransactionID] = own
 	c.pendingMu.Unlock()
 
 	cancel := func() {
@@ -421,7 +422,10 @@ func (c *Client) send(dest net.Addr, msg *dhcpv6.Message) (<-chan *dhcpv6.Messag
 		verifPoint("cancel.gap")
 
 		c.pendingMu.Lock()
-		if p, ok := c.pending[msg.TransactionID]; ok {
+		// Only remove our own entry: receiveLoop may already have removed
+		// it, and another caller may have registered the same
+		// TransactionID since.
+		if p, ok := c.pending[msg.TransactionID]; ok && p == own {
 			close(p.ch)
 			delete(c.pending, msg.TransactionID)
 		}
